@@ -106,6 +106,7 @@ pub fn run(suite: &str, seed: u64, n: usize, corpus: Option<&Path>) -> Vec<Case>
         "status" => status(seed, n),
         "print" => print(seed, n, corpus),
         "asp_parse" => asp_parse(seed, n, corpus),
+        "fol_parse" => fol_parse(seed, n, corpus),
         "decompose" => decompose(seed, n),
         "external" => external(seed, n, corpus, false),
         "external_text" => external(seed, n, corpus, true),
@@ -1125,6 +1126,48 @@ fn asp_parse(seed: u64, n: usize, corpus: Option<&Path>) -> Vec<Case> {
             Err(_) => "(error)".to_string(),
         });
         cases.push(Case { req: format!("(asp_parse {})", sexp::q(&text)), nontrivial: imp != "(error)", imp, tag: "asp_parse", origin });
+    }
+    cases
+}
+
+// ------------------------------------------------------------------ the target-language parsers
+
+/// `parse::<Theory>()`, `parse::<Specification>()`, `parse::<UserGuide>()` against the Lean model of the grammar.
+fn fol_parse(seed: u64, n: usize, corpus: Option<&Path>) -> Vec<Case> {
+    let mut texts: Vec<(String, &'static str, String)> = vec![];
+    let unesc = |l: &str| l.replace("\\n", "\n").replace("\\s", " ").replace("\\h", "#").replace("\\r", "\r");
+    for l in corpus_lines(corpus, "fol_texts") {
+        let (kind, text) = if let Some(t) = l.strip_prefix("spec;;") { ("spec", t) } else if let Some(t) = l.strip_prefix("ug;;") { ("ug", t) } else if let Some(t) = l.strip_prefix("theory;;") { ("theory", t) } else { ("theory", l.as_str()) };
+        texts.push((format!("corpus:{l}"), kind, unesc(text.trim())));
+    }
+    let mut rng = Rng::new(seed ^ 0xF0B0);
+    let vary = |text: String, rng: &mut Rng| -> String {
+        match rng.below(5) { 0 | 1 => text, 2 => respace(&text, rng), 3 => near_miss(&text, rng), _ => { let t = respace(&text, rng); near_miss(&t, rng) } }
+    };
+    for (origin, f) in formulas(seed ^ 0xF0B1, n / 2, corpus, &["formulas"]) {
+        let printed = format!("{f}.");
+        let verbose = format!("{}.", crate::roundtrip::v_formula(&f));
+        let t = if rng.chance(1, 3) { verbose } else { printed };
+        texts.push((origin, "theory", vary(t, &mut rng)));
+    }
+    for i in 0..n / 4 {
+        let t = gen_ext_task(&mut rng, format!("seed:{seed}:{i}"));
+        texts.push((t.origin.clone(), "ug", vary(t.ug.to_string(), &mut rng)));
+        texts.push((t.origin.clone(), "spec", vary(t.po.to_string(), &mut rng)));
+        if let either::Either::Right(sp) = &t.spec {
+            texts.push((t.origin.clone(), "spec", vary(sp.to_string(), &mut rng)));
+        }
+    }
+    let mut cases = vec![];
+    for (origin, kind, text) in texts {
+        if too_many_digits(&text) { continue; }
+        let t = text.clone();
+        let imp = guarded(move || match kind {
+            "theory" => match t.parse::<fol::Theory>() { Ok(x) => format!("(ok {})", sexp::theory(&x)), Err(_) => "(error)".to_string() },
+            "spec" => match t.parse::<fol::Specification>() { Ok(x) => format!("(ok {})", spec_sexp(&x)), Err(_) => "(error)".to_string() },
+            _ => match t.parse::<fol::UserGuide>() { Ok(x) => format!("(ok {})", ug_sexp(&x)), Err(_) => "(error)".to_string() },
+        });
+        cases.push(Case { req: format!("(fol_parse {kind} {})", sexp::q(&text)), nontrivial: imp != "(error)", imp, tag: "fol_parse", origin });
     }
     cases
 }
